@@ -1,19 +1,41 @@
 //! C12 — `spectrum_q_value`
-//!   specq [n label…] junk  ->  [n u32 q…] passing      (label 1 = decoy, 0 = target)
+//!   specq    [n label…] junk            ->  [n u32 q…] passing frame        (label 1 = decoy, 0 = target)
+//!   specqrle [k (label runlen)…] junk   ->  [m (u32 q, runlen)…] passing frame
+//!   specqlab [n (i32 label, u32 stale spectrum_q, rank)…]  ->  [n u32 q…] passing frame
+//!            (raw `Feature.label` values — also values other than ±1 — and an explicit stale `spectrum_q` and
+//!            rank per PSM: the record-level model `spectrumQPsm` is run on exactly these records)
 //! `junk` seeds the values every OTHER field of the PSMs holds before the call (including a stale
 //! `spectrum_q` from an earlier pass, as in sage-cli's predict_rt flow): the result must depend on the
-//! labels only. junk = 0 means freshly initialised PSMs.
+//! labels only. junk = 0 means freshly initialised PSMs. `frame` = 1 iff every field other than
+//! `spectrum_q` is bit-identical after the call.
+//! `specqrle`: the runs are expanded into a real `Vec<Feature>` (336 bytes per PSM: 2^24 + 2 PSMs need
+//! about 5.6 GB), the real function is called on it, and the q-values are returned run-length encoded
+//! (maximal runs of equal bit patterns). Expansions of more than 2^22 PSMs are serialised by a mutex so
+//! that at most one of them is alive at a time.
 use super::Info;
 use crate::proto::{Case, Out, Rng, Tier, Toks};
 use sage_core::ml::qvalue::spectrum_q_value;
+use sage_core::scoring::Feature;
+use std::sync::Mutex;
 
-pub const OPS: &[&str] = &["specq"];
+pub const OPS: &[&str] = &["specq", "specqrle", "specqlab"];
 pub const INFO: Info = Info {
     rule: "label sequences: exhaustive up to length L (quick 10, thorough 16) plus random sequences with \
-           decoy rate in {1%,10%,50%,90%} and lengths up to 400 (quick) / 5000 (thorough); non-trivial = \
-           contains at least one target and one decoy; distinct by label sequence",
+           decoy rate in {1%,10%,50%,90%} and lengths up to 400 (quick) / 5000 (thorough), directed \
+           1%-threshold boundaries, stale-field (junk seed) variants; run-length encoded lists (op specqrle): \
+           random runs (tiny: total <= 48, checked against the O(n^2) definition; medium; large: runs up to \
+           1e5, total <= 1e6 in quick), 1% boundaries at 1e5 scale, and in the thorough tier lists around \
+           2^24 PSMs (2^24-1 targets, 2^24-1 decoys + targets, 2^24+2 targets, 2^24+65 decoys followed by \
+           2^24+1001 targets); non-trivial = contains at least one target and one decoy; distinct by label \
+           sequence",
     serial: false,
 };
+
+/// larger expansions than this are refused (bad-request): 2^26 PSMs = 22.5 GB
+const MAX_TOTAL: usize = 1 << 26;
+/// expansions above this size take the lock below
+const BIG: usize = 1 << 22;
+static BIG_LOCK: Mutex<()> = Mutex::new(());
 
 fn request_junk(labels: &[bool], junk: u64) -> String {
     let mut o = Out::new();
@@ -31,8 +53,24 @@ fn request(labels: &[bool]) -> String {
     request_junk(labels, if h % 3 == 0 { 0 } else { 1 + h % 1000 })
 }
 
+fn request_rle(runs: &[(bool, usize)], junk: u64) -> String {
+    let mut o = Out::new();
+    o.raw("specqrle").n(runs.len());
+    for &(l, k) in runs {
+        o.b(l).n(k);
+    }
+    o.n(junk);
+    o.finish()
+}
+
+fn rle_case(runs: &[(bool, usize)], junk: u64, tag: &'static str) -> Case {
+    let nt = runs.iter().any(|&(b, k)| b && k > 0) && runs.iter().any(|&(b, k)| !b && k > 0);
+    Case::new(request_rle(runs, junk)).tag("rle").tag(tag).nontrivial(nt)
+}
+
 pub fn gen(rng: &mut Rng, tier: Tier, emit: &mut dyn FnMut(Case)) {
-    let exhaustive = if tier == Tier::Quick { 10 } else { 16 };
+    let quick = tier == Tier::Quick;
+    let exhaustive = if quick { 10 } else { 16 };
     for len in 0..=exhaustive {
         for bits in 0u32..(1u32 << len) {
             let labels: Vec<bool> = (0..len).map(|i| (bits >> i) & 1 == 1).collect();
@@ -43,6 +81,15 @@ pub fn gen(rng: &mut Rng, tier: Tier, emit: &mut dyn FnMut(Case)) {
                 .tag_if(len > 0 && !labels.iter().any(|&b| b), "all-target")
                 .tag_if(len > 0 && labels.iter().all(|&b| b), "all-decoy")
                 .nontrivial(nt));
+        }
+    }
+    // every sequence up to length 6 once more with stale PSMs (the exhaustive stream above picks fresh or
+    // stale by a hash): a stale `spectrum_q` below the right answer at every position
+    for len in 1..=6 {
+        for bits in 0u32..(1u32 << len) {
+            let labels: Vec<bool> = (0..len).map(|i| (bits >> i) & 1 == 1).collect();
+            let nt = labels.iter().any(|&b| b) && labels.iter().any(|&b| !b);
+            emit(Case::new(request_junk(&labels, 1 + (bits as u64) * 7 + len as u64)).tag("exhaustive-stale").nontrivial(nt));
         }
     }
     // directed: q-values that land exactly on / next to the 0.01 threshold ((d+1)/t = 1/100 …)
@@ -59,7 +106,19 @@ pub fn gen(rng: &mut Rng, tier: Tier, emit: &mut dyn FnMut(Case)) {
             }
         }
     }
-    let (n, maxlen) = if tier == Tier::Quick { (300, 400) } else { (3000, 5000) };
+    // directed: the passing PSMs are a strict prefix followed by a long non-passing tail that contains
+    // a local dip which does NOT reach 1% (an early `break` / a forward running minimum would differ)
+    for &t in &[100usize, 150, 200] {
+        for &gap in &[1usize, 2, 5] {
+            let mut labels = vec![false; t];
+            labels.extend(std::iter::repeat(true).take(gap));
+            labels.extend(std::iter::repeat(false).take(t / 2));
+            labels.extend(std::iter::repeat(true).take(gap + 1));
+            labels.extend(std::iter::repeat(false).take(3));
+            emit(Case::new(request_junk(&labels, 11 + t as u64)).tag("prefix-then-tail"));
+        }
+    }
+    let (n, maxlen) = if quick { (300, 400) } else { (3000, 5000) };
     for _ in 0..n {
         let len = 1 + rng.below(maxlen);
         let rate = *rng.pick(&[1u32, 10, 50, 90]);
@@ -67,37 +126,276 @@ pub fn gen(rng: &mut Rng, tier: Tier, emit: &mut dyn FnMut(Case)) {
         let nt = labels.iter().any(|&b| b) && labels.iter().any(|&b| !b);
         emit(Case::new(request(&labels)).tag("random").nontrivial(nt));
     }
+
+    // raw labels with explicit stale fields: the record-level model is run on exactly these records.
+    // Labels other than +-1 never occur in sage (`Peptide::label`), the code counts them as targets
+    // (`label == -1` is the decoy test); the property is silent there (spec verdict `na`).
+    for i in 0..(if quick { 150 } else { 2000 }) {
+        let len = 1 + rng.below(if i % 3 == 0 { 8 } else { 60 });
+        let foreign = i % 2 == 1;
+        let mut o = Out::new();
+        o.raw("specqlab").n(len);
+        let mut any_foreign = false;
+        for _ in 0..len {
+            let lab: i64 = if foreign && rng.chance(1, 4) {
+                any_foreign = true;
+                *rng.pick(&[0i64, 2, -2, 3])
+            } else if rng.chance(3, 10) {
+                -1
+            } else {
+                1
+            };
+            let sq = *rng.pick(&[0.0f32, 1e-9, 0.001, 0.0057, 0.01, 0.5, 1.0, 7.5, f32::INFINITY]);
+            o.n(lab).f32(sq).n(1 + rng.below(3));
+        }
+        emit(Case::new(o.finish()).tag("raw-labels").tag_if(any_foreign, "foreign-label"));
+    }
+
+    // ---------------------------------------------------------------- run-length encoded lists
+    // tiny: total <= 48, the driver evaluates the O(n^2) definition on the expansion
+    for _ in 0..(if quick { 200 } else { 3000 }) {
+        let k = 1 + rng.below(6);
+        let mut runs = Vec::new();
+        let mut left = 48usize;
+        let mut lab = rng.chance(1, 2);
+        for _ in 0..k {
+            let len = rng.below(9).min(left);
+            left -= len;
+            runs.push((lab, len));
+            // mostly alternate; sometimes repeat the label (adjacent runs of one label) or emit an empty run
+            if !rng.chance(1, 5) {
+                lab = !lab;
+            }
+        }
+        emit(rle_case(&runs, if rng.chance(1, 2) { 0 } else { 1 + rng.below(1000) as u64 }, "tiny"));
+    }
+    // medium: runs up to 2000
+    for _ in 0..(if quick { 40 } else { 600 }) {
+        let k = 1 + rng.below(12);
+        let mut runs = Vec::new();
+        let mut lab = rng.chance(1, 3);
+        for _ in 0..k {
+            let m = if lab { *rng.pick(&[4usize, 40, 400]) } else { *rng.pick(&[20usize, 200, 2000]) };
+            let len = rng.below(m);
+            runs.push((lab, len));
+            if !rng.chance(1, 8) {
+                lab = !lab;
+            }
+        }
+        emit(rle_case(&runs, 1 + rng.below(1000) as u64, "medium"));
+    }
+    // large: runs up to 1e5 (quick: total <= 1e6); decoy runs that follow targets stay <= 2e4 PSMs unless
+    // capped early, so that the reply (one token pair per distinct q-value) stays small
+    let big_t = 100_000usize;
+    let directed: Vec<Vec<(bool, usize)>> = vec![
+        vec![(false, big_t)],
+        vec![(true, big_t), (false, big_t)],
+        vec![(true, big_t), (false, 3 * big_t), (true, 5)],
+        // 1% boundary at scale: (d+1)/t = 1000/100000 exactly, one below, one above
+        vec![(false, big_t), (true, 998), (false, 0), (true, 1)],
+        vec![(false, big_t), (true, 999), (true, 1)],
+        vec![(false, big_t), (true, 1000)],
+        vec![(false, big_t), (true, 500), (false, big_t), (true, 1499), (false, 7)],
+        // a long capped tail: 100 targets, then 1e5 decoys (all q = 1 after the first 99)
+        vec![(false, 100), (true, big_t)],
+        // staircase: every decoy of the run has its own q-value
+        vec![(false, big_t), (true, 20_000), (false, 50_000)],
+    ];
+    for (i, runs) in directed.iter().enumerate() {
+        emit(rle_case(runs, if i % 2 == 0 { 0 } else { 40 + i as u64 }, "large-directed"));
+    }
+    for _ in 0..(if quick { 6 } else { 40 }) {
+        let k = 2 + rng.below(8);
+        let mut runs = Vec::new();
+        let mut lab = rng.chance(1, 3);
+        let mut total = 0usize;
+        let cap = if quick { 1_000_000 } else { 4_000_000 };
+        let mut seen_target = false;
+        for _ in 0..k {
+            let m = if lab {
+                if seen_target { *rng.pick(&[10usize, 1000, 20_000]) } else { big_t }
+            } else {
+                *rng.pick(&[1000usize, big_t, big_t])
+            };
+            let mut len = rng.below(m);
+            len = len.min(cap - total);
+            total += len;
+            seen_target |= !lab && len > 0;
+            runs.push((lab, len));
+            lab = !lab;
+        }
+        emit(rle_case(&runs, 1 + rng.below(1000) as u64, "large"));
+    }
+    if !quick {
+        // around 2^24: the `as f32` conversion of the two tallies starts to round
+        let p24 = 1usize << 24;
+        // just below: every tally is exactly representable (the decoy tally, which starts at 1, reaches 2^24)
+        emit(rle_case(&[(false, p24 - 1)], 0, "below-2^24"));
+        emit(rle_case(&[(true, p24 - 1), (false, 3)], 3, "below-2^24"));
+        emit(rle_case(&[(false, 5_000_000), (true, 40_000), (false, p24 - 5_040_001), (true, 1)], 5, "below-2^24"));
+        // just above: 2^24 + 2 targets (q = 1/16777218; a saturating f32 tally gives 1/16777216)
+        emit(rle_case(&[(false, p24 + 2)], 0, "above-2^24"));
+        emit(rle_case(&[(false, p24 + 1), (true, 1), (false, 100)], 7, "above-2^24"));
+        // both tallies above 2^24: 2^24 + 65 decoys, then 2^24 + 1001 targets (11.3 GB)
+        emit(rle_case(&[(true, p24 + 65), (false, p24 + 1001)], 0, "above-2^24"));
+    }
 }
 
-pub fn exec(_op: &str, t: &mut Toks) -> Option<String> {
-    let labels = t.list(|t| t.bool())?;
-    let junk = t.usize()? as u64;
-    let mut jr = Rng::new(junk);
-    let mut feats: Vec<_> = labels
-        .iter()
-        .map(|&decoy| {
-            let mut f = super::util::blank_feature();
-            f.label = if decoy { -1 } else { 1 };
-            if junk != 0 {
-                // whatever an earlier pass left behind
-                f.spectrum_q = *jr.pick(&[0.0f32, 0.001, 0.0057, 0.01, 0.5, 1.0, 7.5]);
-                f.peptide_q = jr.unit() as f32;
-                f.protein_q = jr.unit() as f32;
-                f.discriminant_score = (jr.unit() * 10.0 - 5.0) as f32;
-                f.posterior_error = -(jr.unit() * 30.0) as f32;
-                f.hyperscore = jr.unit() * 80.0;
-                f.rank = 1 + jr.below(3) as u32;
-                f.psm_id = jr.below(100000);
-            }
-            f
-        })
-        .collect();
-    let passing = spectrum_q_value(&mut feats);
-    let mut o = Out::new();
-    o.n(feats.len());
-    for f in &feats {
-        o.f32(f.spectrum_q);
+/// a 64-bit digest of every field of the PSM except `spectrum_q`
+fn sig(f: &Feature) -> u64 {
+    let mut h: u64 = 0xcbf29ce484222325;
+    let mut mix = |x: u64| {
+        h = (h ^ x).wrapping_mul(0x100000001b3);
+        h ^= h >> 29;
+    };
+    mix(f.peptide_idx.0 as u64);
+    mix(f.psm_id as u64);
+    mix(f.peptide_len as u64);
+    mix(f.spec_id.len() as u64);
+    for b in f.spec_id.bytes() {
+        mix(b as u64);
     }
-    o.n(passing);
-    Some(o.finish())
+    mix(f.file_id as u64);
+    mix(f.rank as u64);
+    mix(f.label as i64 as u64);
+    mix(f.expmass.to_bits() as u64);
+    mix(f.calcmass.to_bits() as u64);
+    mix(f.charge as u64);
+    mix(f.rt.to_bits() as u64);
+    mix(f.aligned_rt.to_bits() as u64);
+    mix(f.predicted_rt.to_bits() as u64);
+    mix(f.delta_rt_model.to_bits() as u64);
+    mix(f.ims.to_bits() as u64);
+    mix(f.predicted_ims.to_bits() as u64);
+    mix(f.delta_ims_model.to_bits() as u64);
+    mix(f.delta_mass.to_bits() as u64);
+    mix(f.isotope_error.to_bits() as u64);
+    mix(f.average_ppm.to_bits() as u64);
+    mix(f.hyperscore.to_bits());
+    mix(f.delta_next.to_bits());
+    mix(f.delta_best.to_bits());
+    mix(f.matched_peaks as u64);
+    mix(f.longest_b as u64);
+    mix(f.longest_y as u64);
+    mix(f.longest_y_pct.to_bits() as u64);
+    mix(f.missed_cleavages as u64);
+    mix(f.matched_intensity_pct.to_bits() as u64);
+    mix(f.scored_candidates as u64);
+    mix(f.poisson.to_bits());
+    mix(f.discriminant_score.to_bits() as u64);
+    mix(f.posterior_error.to_bits() as u64);
+    mix(f.peptide_q.to_bits() as u64);
+    mix(f.protein_q.to_bits() as u64);
+    mix(f.ms2_intensity.to_bits() as u64);
+    mix(f.fragments.is_some() as u64);
+    h
+}
+
+fn digest(feats: &[Feature]) -> u64 {
+    feats.iter().fold(feats.len() as u64, |a, f| a.rotate_left(7).wrapping_mul(0x9E37_79B9_7F4A_7C15) ^ sig(f))
+}
+
+/// whatever an earlier pass left behind
+fn stale(f: &mut Feature, jr: &mut Rng) {
+    f.spectrum_q = *jr.pick(&[0.0f32, 0.001, 0.0057, 0.01, 0.5, 1.0, 7.5]);
+    f.peptide_q = jr.unit() as f32;
+    f.protein_q = jr.unit() as f32;
+    f.discriminant_score = (jr.unit() * 10.0 - 5.0) as f32;
+    f.posterior_error = -(jr.unit() * 30.0) as f32;
+    f.hyperscore = jr.unit() * 80.0;
+    f.rank = 1 + jr.below(3) as u32;
+    f.psm_id = jr.below(100000);
+}
+
+pub fn exec(op: &str, t: &mut Toks) -> Option<String> {
+    match op {
+        "specq" | "specqlab" => {
+            let mut feats: Vec<Feature> = if op == "specq" {
+                let labels = t.list(|t| t.bool())?;
+                let junk = t.usize()? as u64;
+                let mut jr = Rng::new(junk);
+                labels
+                    .iter()
+                    .map(|&decoy| {
+                        let mut f = super::util::blank_feature();
+                        f.label = if decoy { -1 } else { 1 };
+                        if junk != 0 {
+                            stale(&mut f, &mut jr);
+                        }
+                        f
+                    })
+                    .collect()
+            } else {
+                t.list(|t| {
+                    let mut f = super::util::blank_feature();
+                    f.label = t.i64()? as i32;
+                    f.spectrum_q = t.f32()?;
+                    f.rank = t.usize()? as u32;
+                    Some(f)
+                })?
+            };
+            if !t.done() {
+                return None;
+            }
+            let before = digest(&feats);
+            let passing = spectrum_q_value(&mut feats);
+            let frame = digest(&feats) == before;
+            let mut o = Out::new();
+            o.n(feats.len());
+            for f in &feats {
+                o.f32(f.spectrum_q);
+            }
+            o.n(passing);
+            o.b(frame);
+            Some(o.finish())
+        }
+        "specqrle" => {
+            let runs = t.list(|t| Some((t.bool()?, t.usize()?)))?;
+            let junk = t.usize()? as u64;
+            let mut total = 0usize;
+            for &(_, k) in &runs {
+                total = total.checked_add(k)?;
+            }
+            if total > MAX_TOTAL {
+                return None;
+            }
+            // one big expansion at a time (a poisoned lock only means an earlier big case panicked)
+            let _guard = if total > BIG { Some(BIG_LOCK.lock().unwrap_or_else(|e| e.into_inner())) } else { None };
+            let mut jr = Rng::new(junk);
+            let mut feats: Vec<Feature> = Vec::with_capacity(total);
+            for &(decoy, k) in &runs {
+                let mut proto = super::util::blank_feature();
+                proto.label = if decoy { -1 } else { 1 };
+                for _ in 0..k {
+                    let mut f = proto.clone();
+                    if junk != 0 {
+                        stale(&mut f, &mut jr);
+                    }
+                    feats.push(f);
+                }
+            }
+            let before = digest(&feats);
+            let passing = spectrum_q_value(&mut feats);
+            let frame = digest(&feats) == before && feats.len() == total;
+            // maximal runs of equal bit patterns
+            let mut out_runs: Vec<(u32, usize)> = Vec::new();
+            for f in &feats {
+                let b = f.spectrum_q.to_bits();
+                match out_runs.last_mut() {
+                    Some((pb, k)) if *pb == b => *k += 1,
+                    _ => out_runs.push((b, 1)),
+                }
+            }
+            drop(feats);
+            let mut o = Out::new();
+            o.n(out_runs.len());
+            for &(b, k) in &out_runs {
+                o.n(b).n(k);
+            }
+            o.n(passing);
+            o.b(frame);
+            Some(o.finish())
+        }
+        _ => None,
+    }
 }
